@@ -523,6 +523,7 @@ void
         new_len = *prev_len;
     } else {
 	new_len = alpha * *prev_len;
+	if ( new_len <= *prev_len ) new_len = *prev_len + 1; /* must grow */
     }
     
     if ( type == LSUB || type == USUB ) lword = sizeof(int_t);
@@ -539,6 +540,7 @@ void
 		    if ( ++tries > 10 ) return (NULL);
 		    alpha = Reduce(alpha);
 		    new_len = alpha * *prev_len;
+		    if ( new_len <= *prev_len ) new_len = *prev_len + 1;
 		    new_mem = (void *) SUPERLU_MALLOC((size_t)new_len * lword);
 		}
 	    }
@@ -581,6 +583,7 @@ void
 		    if ( ++tries > 10 ) return (NULL);
 		    alpha = Reduce(alpha);
 		    new_len = alpha * *prev_len;
+		    if ( new_len <= *prev_len ) new_len = *prev_len + 1;
 		    extra = (new_len - *prev_len) * lword;	    
 		}
 	    }
